@@ -8,7 +8,7 @@ use crate::{
     common::*,
     engine::{idx, Ctx, Outcome, Prop, Tier},
     gen::{pools, Pools},
-    wire::run_session,
+    wire::run_session_clocks,
 };
 
 pub struct C04;
@@ -166,10 +166,10 @@ fn run(ctx: &mut Ctx, c: &Case, o: &mut Outcome) -> R<()> {
                 if a == b {
                     continue;
                 }
-                verif::set_clock(Some(clock(a, si).max(clock(b, si))));
+                let (ca, cb) = (clock(a, si), clock(b, si));
                 let (sa, sb) = two(&mut stores, a, b);
                 let limit = if *m == 255 { 10_000 } else { *m as usize };
-                let t = run_session(&ctx.rt, &mut sa.store, &mut sb.store, ns, limit)?;
+                let t = run_session_clocks(&ctx.rt, &mut sa.store, &mut sb.store, ns, limit, Some((ca, cb)))?;
                 if !t.completed {
                     cut_session = true;
                     o.class("session-cut");
@@ -205,14 +205,16 @@ fn run(ctx: &mut Ctx, c: &Case, o: &mut Outcome) -> R<()> {
                 pairs.push((a, b));
             }
         }
-        verif::set_clock(Some(T0 + 300_000_000 + 1_000_000));
+        // every replica keeps its own skewed clock: entries from a fast clock are up to 580 s ahead of a slow one,
+        // inside the 10-minute tolerance, and must travel by reconciliation too
+        let end = c.steps.len() + 1;
         let mut sweeps = 0;
         loop {
             sweeps += 1;
             let mut moved = 0usize;
             for (a, b) in &pairs {
                 let (sa, sb) = two(&mut stores, *a, *b);
-                let t = run_session(&ctx.rt, &mut sa.store, &mut sb.store, ns, 10_000)?;
+                let t = run_session_clocks(&ctx.rt, &mut sa.store, &mut sb.store, ns, 10_000, Some((clock(*a, end), clock(*b, end))))?;
                 if !t.completed {
                     o.fail("C04/closing-session-does-not-finish", format!("pair ({a},{b})"));
                     break;
